@@ -8,3 +8,4 @@ import RP
 #print axioms RP.fsm_safety
 #print axioms RP.ack_exact
 #print axioms RP.ack_exact_forever
+#print axioms RP.catchup_terminates
